@@ -283,13 +283,42 @@ def failing_op(pool):
         v = rng.choice([b'\xc4\x80', b'abc\xe2\x82\xac', b'x' * 20 + b'\xf0\x9f\x98\x80'])
         pool.new(d, v)
         pool.ops.append('latin1fail,%d,M=throw:unicode_error:%s' % (d, hx(b'\0' * len(v))))
+        # the non-ASCII helper string does not stay in the pool (later byte-level operations on it, e.g. a replace
+        # that cuts a multi-byte character, legitimately throw from result validation)
+        pool.ops.append('reads,%d' % d)
+        pool.ops.append('del,%d' % d)
+        del pool.val[d]
+
+
+def tailored_failing_ops(pool, o):
+    """failing conversions whose would-be UTF-8 result has exactly the target's current byte length (an
+    implementation that converts in place / reuses storage when sizes match would corrupt the target), with the
+    invalid unit after a valid prefix that differs from the current text"""
+    v = pool.val.get(o)
+    if v is None or len(v) < 3:
+        return
+    n = len(v)
+    pre = n - 3                      # an unpaired surrogate / out-of-range unit measures 3 bytes
+    u16 = ''.join('%04x' % (0x58 + (i % 3)) for i in range(pre)) + 'd800'
+    u16m = ''.join('%04x' % (0x58 + (i % 3)) for i in range(pre // 2)) + 'dc00' + ''.join('0059' for _ in range(pre - pre // 2))
+    u32 = ''.join('%08x' % (0x58 + (i % 3)) for i in range(pre)) + '00110000'
+    tmp = hx(b'\0' * n)
+    for kind, u in (('set16fail', u16), ('from16fail', u16), ('set16fail', u16m), ('set32fail', u32)):
+        pool.ops.append('%s,%d,%s,M=throw:unicode_error:%s' % (kind, o, u, tmp))
+    # same-length ill-formed UTF-8: valid prefix, bad tail
+    b = bytes((0x58 + (i % 3)) for i in range(n - 1)) + b'\xc3'
+    pool.ops.append('setfail,%d,%s,M=throw:unicode_error:%s' % (o, hx(b), hx(b)))
+    pool.ops.append('setcfail,%d,%s,M=throw:unicode_error:%s' % (o, hx(b), hx(b)))
 
 
 def failing_history(rng, nops=10, pool=4):
     p = Pool(rng, pool)
     for _ in range(nops):
         if p.val and rng.random() < 0.4:
-            failing_op(p)
+            if rng.random() < 0.3 and p.known():
+                tailored_failing_ops(p, rng.choice(p.known()))
+            else:
+                failing_op(p)
         else:
             p.step()
     return p.finish()
@@ -305,6 +334,9 @@ def directed_failing(rng):
             p.new(1, rstr(rng, 25))
             for _ in range(6):
                 failing_op(p)
+            tailored_failing_ops(p, 0)
+            tailored_failing_ops(p, 1)
+            p.ops.append('reads,0')
             cat = p.val[0] + p.val[1] if p.val.get(0) is not None else None
             if cat is not None:
                 p.ops.append('append,0,1,M=cat:%s' % hx(cat))
